@@ -20,8 +20,8 @@ DTGAP = (Fraction(25, 10000), Fraction(195, 1000))     # peer DT spacing (< 200 
 BAMGAP = (Fraction(50, 1000), Fraction(195, 1000))     # peer BAM spacing 50..200 ms
 
 
-def mk_world(ex, wa, rts_cts_interval=None, bam_interval=None):
-    w = W.World(ex, mode='timed', eps_range=EPS)
+def mk_world(ex, wa, rts_cts_interval=None, bam_interval=None, eps_sym=True):
+    w = W.World(ex, mode='timed', eps_range=EPS if eps_sym else None)
     kw = {}
     if rts_cts_interval is not None:
         kw['minimum_tp_rts_cts_dt_interval'] = Fraction(rts_cts_interval)
@@ -163,10 +163,10 @@ def h_orig_cmdt(ex, prop, L, holds=(0,), interval=None, windows='sym'):
 
 
 # --------------------------------------------------------------------------- peer originates RTS/CTS
-def h_resp_cmdt(ex, prop, L, windows='sym'):
+def h_resp_cmdt(ex, prop, L, windows='sym', gap=None, limit=None):
     c03, c09 = prop == 'C03', prop == 'C09'
     wa = ex.fresh_int('win_stack', 1, 255) if windows == 'sym' else windows
-    w, n, ca, rx = mk_world(ex, wa)
+    w, n, ca, rx = mk_world(ex, wa, eps_sym=gap is None)
     dp = ex.fresh_int('dp', 0, 1)
     pf = ex.fresh_int('pf', 0, 239)
     for p in PROTOCOL_PF:
@@ -174,7 +174,7 @@ def h_resp_cmdt(ex, prop, L, windows='sym'):
     payload = sym_payload(ex, 'b', L)
     npk = tp21.npackets(L)
     pgn0 = dp * 65536 + pf * 256
-    limit = ex.fresh_int('rts_limit', 1, 255)
+    limit = ex.fresh_int('rts_limit', 1, 255) if limit is None else limit
     st = {'sent': 0, 'done': False, 'eoma': 0, 'cts': 0, 'extra': 0}
 
     def send_dts(count, first):
@@ -183,8 +183,8 @@ def h_resp_cmdt(ex, prop, L, windows='sym'):
             st['sent'] = first + i      # before the injection: the stack answers inside the call
             w.inject(n, tp21.can_id(7, tp21.PF_DT, S_ADDR, P_ADDR), tp21.dt(first + i, payload))
             if i + 1 < count:
-                w.after(ex.fresh_real('dt_gap', DTGAP[0], DTGAP[1]), lambda: one(i + 1), 'peer')
-        w.after(ex.fresh_real('reply', REPLY[0], REPLY[1]), lambda: one(0), 'peer')
+                w.after(Fraction(gap) if gap is not None else ex.fresh_real('dt_gap', DTGAP[0], DTGAP[1]), lambda: one(i + 1), 'peer')
+        w.after(Fraction(gap) if gap is not None else ex.fresh_real('reply', REPLY[0], REPLY[1]), lambda: one(0), 'peer')
 
     def on_frame(f):
         if f['src'] != 'S':
@@ -240,9 +240,9 @@ def h_resp_cmdt(ex, prop, L, windows='sym'):
 
 
 # --------------------------------------------------------------------------- BAM
-def h_orig_bam(ex, prop, L, interval=None, pdu2=True):
+def h_orig_bam(ex, prop, L, interval=None, pdu2=True, eps_sym=True):
     c03, c09 = prop == 'C03', prop == 'C09'
-    w, n, ca, rx = mk_world(ex, 1, bam_interval=interval)
+    w, n, ca, rx = mk_world(ex, 1, bam_interval=interval, eps_sym=eps_sym)
     dp, pf, ps, prio = pgn_inputs(ex, pdu2=pdu2)
     if not pdu2:
         ps = 255
@@ -274,8 +274,9 @@ def h_orig_bam(ex, prop, L, interval=None, pdu2=True):
     ex.witness()
 
 
-def h_resp_bam(ex, prop, L):
-    w, n, ca, rx = mk_world(ex, 1)
+def h_resp_bam(ex, prop, L, gap=None):
+    """gap: None = fresh symbolic spacing per packet; otherwise one constant spacing (long messages)"""
+    w, n, ca, rx = mk_world(ex, 1, eps_sym=gap is None)
     dp = ex.fresh_int('dp', 0, 1)
     pf = ex.fresh_int('pf', 240, 255)
     ge = ex.fresh_int('ge', 0, 255)
@@ -285,11 +286,14 @@ def h_resp_bam(ex, prop, L):
     w.run(until=T('1/100'))
     w.inject(n, tp21.can_id(7, tp21.PF_CM, 255, P_ADDR), tp21.bam(L, pgn))
 
+    def nextgap():
+        return Fraction(gap) if gap is not None else ex.fresh_real('bam_gap', BAMGAP[0], BAMGAP[1])
+
     def one(i):
         w.inject(n, tp21.can_id(7, tp21.PF_DT, 255, P_ADDR), tp21.dt(i, payload))
         if i < npk:
-            w.after(ex.fresh_real('bam_gap', BAMGAP[0], BAMGAP[1]), lambda: one(i + 1), 'peer')
-    w.after(ex.fresh_real('bam_gap', BAMGAP[0], BAMGAP[1]), lambda: one(1), 'peer')
+            w.after(nextgap(), lambda: one(i + 1), 'peer')
+    w.after(nextgap(), lambda: one(1), 'peer')
     w.run(until=w.now + T(2) + T('2/10') * npk)
     ex.claim('c03.bam.rx.silent', len(w.log) == 0, {'frames': len(w.log)})
     ex.claim('c03.bam.rx.delivered_once', len(rx) == 1, {'deliveries': len(rx)})
